@@ -73,7 +73,8 @@ def cases(draw):
         L.append([format(addr, "x"), m, list(oa), list(on)])
         addr += draw(st.integers(1, 7))
     assume(names_ok(pattern))
-    return {"template": t, "listing": L, "pattern": pattern, "restart": restart is not None}
+    flags = draw(st.sampled_from([[False, False], [False, False], [True, False], [False, True], [True, True]]))
+    return {"template": t, "listing": L, "pattern": pattern, "restart": restart is not None, "flags": flags}
 
 
 def strategy(tier):
@@ -128,13 +129,14 @@ def evaluate(case):
     ev = Eval()
     L = case["listing"]
     NV = norm_view(L)
-    ref = Ref(NV)
+    mn_full, op_full = case.get("flags", [False, False])
+    ref = Ref(NV, mn_full, op_full)
     if ref.spans_empty(case["pattern"]):
         ev.tags.append("nullable-skipped")
         return ev
     spans = ref.spans(case["pattern"])
     text = render(att_view(L))
-    res = run_all_modes(jasm_io.make_doc(case["pattern"]), text, None, combos=[("list", "all", False), ("list", "first", False), ("list", "all", True), ("list", "first", True)])
+    res = run_all_modes(jasm_io.make_doc(case["pattern"], mn_full or None, op_full or None), text, None, combos=[("list", "all", False), ("list", "first", False), ("list", "all", True), ("list", "first", True)])
     ev.subcases = 4
     outs = {}
     for key, r in res.items():
